@@ -15,6 +15,13 @@
 import OFV.Model.All
 import OFV.Lemmas.Size
 import OFV.Lemmas.SizeTac
+import OFV.Lemmas.SizeNoErr
+import OFV.Lemmas.SizeList
+import OFV.Lemmas.SizeIdem
+import OFV.Lemmas.SizeInstr
+import OFV.Lemmas.SizeMsg
+import OFV.Lemmas.SizeCex
+import OFV.Props.C06
 namespace OFV.Props.C06b
 open OFV OFV.Go OFV.Model
 
@@ -363,5 +370,993 @@ theorem action_size (v : V) : SizeOK Action.lenM Action.marshalM v := action_siz
 /-- NXActionConnTrack with the knot tied -/
 theorem nxConnTrack_size' (v : V) : SizeOK NXActionConnTrack.lenM NXActionConnTrack.marshalM v :=
   nxConnTrack_size _ v
+
+/-! ### alignment -/
+
+/-- the action kinds that pad: whatever they hold, the size they report is a multiple of 8
+    (fixed 8/16-byte kinds, and the kinds that round up: SetField, CTNAT, Learn, Note, RegLoad2) -/
+theorem action_len_aligned (v : V)
+    (hk : v.kind ∈ ["ActionOutput", "ActionSetqueue", "ActionGroup", "ActionDecNwTtl", "ActionPush", "ActionPopVlan",
+      "ActionPopMpls", "ActionSetField", "NXActionCTNAT", "NXActionLearn", "NXActionNote", "NXActionRegLoad2",
+      "NXActionController"])
+    (l : UInt16) (v1 : V) (h : Action.lenM v = .ok (l, v1)) : l.toNat % 8 = 0 := by
+  unfold Action.lenM at h
+  split at h <;> rename_i hk'
+  all_goals first
+    | (rw [hk'] at hk; exact absurd hk (by decide))
+    | (obtain ⟨rfl, _⟩ := same_ok _ _ _ _ h; rfl)
+    | exact actionSetField_aligned _ _ _ h
+    | (unfold NXActionCTNAT.lenM at h
+       split at h
+       · obtain ⟨_, _, h2⟩ := bind_ok_inv _ _ _ h
+         obtain ⟨_, _, h3⟩ := bind_ok_inv _ _ _ h2
+         cases h3; exact round8_aligned _
+       · exact absurd h (by simp))
+    | (unfold NXActionLearn.lenM NXActionLearn.len at h
+       obtain ⟨_, hl, h2⟩ := bind_ok_inv _ _ _ h
+       obtain ⟨rfl, _⟩ := same_ok _ _ _ _ h2
+       split at hl
+       · obtain ⟨_, _, h3⟩ := bind_ok_inv _ _ _ hl
+         cases h3; exact round8_aligned _
+       · exact absurd hl (by simp))
+    | (unfold NXActionNote.lenM at h
+       split at h
+       · obtain ⟨rfl, _⟩ := same_ok _ _ _ _ h; exact round8_aligned _
+       · exact absurd h (by simp))
+    | (unfold NXActionRegLoad2.lenM at h
+       split at h
+       · split at h
+         · exact absurd h (by simp)
+         · obtain ⟨_, _, h2⟩ := bind_ok_inv _ _ _ h
+           cases h2; exact round8_aligned _
+       · exact absurd h (by simp))
+    | exact absurd h (by simp)
+
+/-- NOT aligned: the header-only action (COPY_TTL_OUT/IN, DEC_MPLS_TTL, POP_PBB) and the two TTL setters report —
+    and encode to — 4 bytes, where the OpenFlow 1.3 wire format has 8 (4 bytes of padding are missing) -/
+theorem action_len_unaligned (v : V) :
+    ActionHeader.lenM v = .ok (4, v) ∧ ActionMplsTtl.lenM v = .ok (4, v) ∧ ActionNwTtl.lenM v = .ok (4, v) :=
+  ⟨rfl, rfl, rfl⟩
+
+
+/-! ### instructions -/
+
+/-- InstrHeader: 4 bytes -/
+theorem instrHeader_size (v : V) : SizeOK InstrHeader.lenM InstrHeader.marshalM v := by
+  intro l v1 bs v2 h1 h2
+  obtain ⟨rfl, rfl⟩ := same_ok _ _ _ _ h1
+  unfold InstrHeader.marshalM at h2
+  obtain ⟨b, hb, h2⟩ := bind_ok_inv _ _ _ h2
+  obtain ⟨rfl, _⟩ := same_ok _ _ _ _ h2
+  exact InstrHeader.bytes_length _ _ hb
+
+/-- InstrGotoTable: 8 bytes -/
+theorem instrGotoTable_size (v : V) : SizeOK InstrGotoTable.lenM InstrGotoTable.marshalM v := by
+  intro l v1 bs v2 h1 h2
+  obtain ⟨rfl, rfl⟩ := same_ok _ _ _ _ h1
+  unfold InstrGotoTable.marshalM at h2
+  split at h2
+  · obtain ⟨b, hb, h2⟩ := bind_ok_inv _ _ _ h2
+    obtain ⟨rfl, _⟩ := same_ok _ _ _ _ h2
+    have := InstrHeader.bytes_length _ _ hb
+    simp [this, makeCopy_length]
+  · exact absurd h2 (by simp)
+
+/-- InstrWriteMetadata: 24 bytes -/
+theorem instrWriteMetadata_size (v : V) : SizeOK InstrWriteMetadata.lenM InstrWriteMetadata.marshalM v := by
+  intro l v1 bs v2 h1 h2
+  obtain ⟨rfl, rfl⟩ := same_ok _ _ _ _ h1
+  unfold InstrWriteMetadata.marshalM at h2
+  split at h2
+  · obtain ⟨b, hb, h2⟩ := bind_ok_inv _ _ _ h2
+    obtain ⟨rfl, _⟩ := same_ok _ _ _ _ h2
+    have := InstrHeader.bytes_length _ _ hb
+    simp [this, makeCopy_length]
+  · exact absurd h2 (by simp)
+
+/-- InstrMeter: the promoted InstrHeader methods — 4 bytes reported, 4 written (the meter id is never encoded) -/
+theorem instrMeter_size (v : V) : SizeOK InstrMeter.lenM InstrMeter.marshalM v := by
+  intro l v1 bs v2 h1 h2
+  obtain ⟨rfl, rfl⟩ := same_ok _ _ _ _ h1
+  unfold InstrMeter.marshalM at h2
+  split at h2
+  · obtain ⟨b, hb, h2⟩ := bind_ok_inv _ _ _ h2
+    obtain ⟨rfl, _⟩ := same_ok _ _ _ _ h2
+    exact InstrHeader.bytes_length _ _ hb
+  · exact absurd h2 (by simp)
+
+/-- InstrActions (apply / write / clear actions): header, pad and the complete encodings of all actions.
+    The encoding is built with `append`, Len() adds in uint16: equal modulo 2^16, for every list of actions. -/
+theorem instrActions_sizeMod (v : V) : SizeMod InstrActions.lenM InstrActions.marshalM v := by
+  intro l v1 bs v2 h1 h2
+  unfold InstrActions.marshalM at h2
+  split at h2
+  · simp only [InstrActions.lenM] at h1
+    obtain ⟨⟨ls, as'⟩, hm, h1'⟩ := bind_ok_inv _ _ _ h1
+    cases h1'
+    obtain ⟨hb, hhb, h3⟩ := bind_ok_inv _ _ _ h2
+    obtain ⟨⟨abs, as'', e⟩, hml, h4⟩ := bind_ok_inv _ _ _ h3
+    simp only at h4
+    split at h4
+    · exact absurd h4 (by simp)
+    · cases h4
+      have key := marshalList_length_same Action.lenM Action.marshalM _ _ _ _ _ _ _ hm hml
+        (fun x _ => Action.marshalM_noErr x) (fun x _ => (action_size x).toMod)
+      have hl := InstrHeader.bytes_length _ _ hhb
+      simp only [List.length_append, hl, makeCopy_length]
+      rw [UInt16.toNat_add, key]
+      have : (2:Nat) ^ 16 = 65536 := rfl
+      have h8 : (8 : UInt16).toNat = 8 := rfl
+      rw [this, h8]; omega
+  · exact absurd h2 (by simp)
+
+/-- … and exactly equal whenever the encoding is shorter than 64 KiB -/
+theorem instrActions_size (v : V) (l : UInt16) (v1 : V) (bs : Bytes) (v2 : V)
+    (h1 : InstrActions.lenM v = .ok (l, v1)) (h2 : InstrActions.marshalM v = .ok (bs, v2)) (hlt : bs.length < 65536) :
+    bs.length = l.toNat := (instrActions_sizeMod v).toOK l v1 bs v2 h1 h2 hlt
+
+/-- n output actions in one InstrActions, evaluated for arbitrary n -/
+theorem instrActions_replicate (n : Nat) :
+    let v : V := .obj "InstrActions" [.obj "InstrHeader" [.num 4, .num 8], .bytes [], .list (List.replicate n (ActionOutput.new 1))]
+    InstrActions.lenM v = .ok (8 + sum16 (List.replicate n 16), v) ∧
+    InstrActions.marshalM v = .ok (be16 (n16 4) ++ be16 (n16 8) ++ makeCopy 4 [] ++
+      (List.replicate n ([0, 0, 0, 16, 0, 0, 0, 1, 1, 0, 0, 0, 0, 0, 0, 0] : Bytes)).flatten, v) := by
+  have hl : Action.lenM (ActionOutput.new 1) = .ok (16, ActionOutput.new 1) := rfl
+  have hm : Action.marshalM (ActionOutput.new 1) =
+      .ok ([0, 0, 0, 16, 0, 0, 0, 1, 1, 0, 0, 0, 0, 0, 0, 0], ActionOutput.new 1) := rfl
+  intro v
+  constructor
+  · simp only [v, InstrActions.lenM, mapM2_replicate _ _ _ hl, Res.bind_ok]
+  · simp only [v, InstrActions.marshalM, InstrHeader.bytes, marshalList_replicate _ _ _ hm, Res.bind_ok]
+    split <;> simp
+
+/-- GENUINE LIMIT (uint16 Len() vs. `append`): an InstrActions holding 4096 output actions reports 8 bytes while its
+    encoding is 65 544 bytes long.  `SizeOK InstrActions.lenM InstrActions.marshalM` is false; `instrActions_sizeMod`
+    is what holds. The same wrap-around affects every kind whose theorem here is a `…_sizeMod`. -/
+theorem instrActions_size_counterexample :
+    ∃ v l v1 bs v2, InstrActions.lenM v = .ok (l, v1) ∧ InstrActions.marshalM v = .ok (bs, v2) ∧
+      l.toNat = 8 ∧ bs.length = 65544 := by
+  obtain ⟨h1, h2⟩ := instrActions_replicate 4096
+  refine ⟨_, _, _, _, _, h1, h2, ?_, ?_⟩
+  · rw [UInt16.toNat_add, sum16_replicate]; rfl
+  · simp only [List.length_append, flatten_replicate_length, makeCopy_length, be16_length]; rfl
+
+/-- the Instruction interface -/
+theorem instruction_sizeMod (v : V) : SizeMod Instruction.lenM Instruction.marshalM v := by
+  intro l v1 bs v2 h1 h2
+  unfold Instruction.lenM at h1
+  unfold Instruction.marshalM at h2
+  split at h1 <;> rename_i hk <;> simp only [hk] at h2
+  · exact (instrGotoTable_size v).toMod l v1 bs v2 h1 h2
+  · exact (instrWriteMetadata_size v).toMod l v1 bs v2 h1 h2
+  · exact instrActions_sizeMod v l v1 bs v2 h1 h2
+  · exact (instrMeter_size v).toMod l v1 bs v2 h1 h2
+  · exact absurd h1 (by simp)
+
+/-! ### buckets and GroupMod -/
+
+/-- What a Bucket reports and what it writes: the encoding is 16 bytes plus the complete action encodings (no padding
+    is ever written); the reported size (also stored in the Length field) is that number ROUNDED UP to a multiple
+    of 8, in uint16.  For every bucket. -/
+theorem bucket_size_exact (v : V) (l : UInt16) (v1 : V) (bs : Bytes) (v2 : V)
+    (h1 : Bucket.lenM v = .ok (l, v1)) (h2 : Bucket.marshalM v = .ok (bs, v2)) :
+    l = round8 (n16 bs.length) := by
+  unfold Bucket.marshalM at h2
+  obtain ⟨⟨l', v'⟩, hl, h3⟩ := bind_ok_inv _ _ _ h2
+  rw [h1] at hl
+  cases hl
+  unfold Bucket.lenM at h1
+  split at h1
+  · obtain ⟨⟨ls, as'⟩, hm, h1'⟩ := bind_ok_inv _ _ _ h1
+    cases h1'
+    simp only at h3
+    split at h3
+    · rename_i heq
+      cases heq
+      obtain ⟨⟨abs, as'', e⟩, hml, h4⟩ := bind_ok_inv _ _ _ h3
+      simp only at h4
+      split at h4
+      · exact absurd h4 (by simp)
+      · cases h4
+        have key := marshalList_length_after Action.lenM Action.marshalM _ _ _ _ _ _ _ hm hml
+          (fun x _ => Action.marshalM_noErr x)
+          (fun x _ l y b z hx hy => (action_size y).toMod l y b z (Action.lenM_idem x l y hx) hy)
+        congr 1
+        apply UInt16.toNat_inj.mp
+        rw [UInt16.toNat_add, key]
+        simp only [List.length_append, be16_length, be32_length, zeros_length, n16, UInt16.toNat_ofNat']
+        have : (2:Nat) ^ 16 = 65536 := rfl
+        have h16 : (16 : UInt16).toNat = 16 := rfl
+        rw [this, h16]; omega
+    · exact absurd h3 (by simp)
+  · exact absurd h1 (by simp)
+
+/-- Bucket, reported size = encoded size (mod 2^16) — PARTIAL: only for buckets whose encoding is a multiple of 8 bytes
+    long (every action it holds reports a multiple of 8).  Full statement `SizeMod Bucket.lenM Bucket.marshalM v` is
+    FALSE, see `bucket_size_counterexample`. -/
+theorem bucket_size_partial (v : V) (l : UInt16) (v1 : V) (bs : Bytes) (v2 : V)
+    (h1 : Bucket.lenM v = .ok (l, v1)) (h2 : Bucket.marshalM v = .ok (bs, v2)) (hal : bs.length % 8 = 0) :
+    l.toNat = bs.length % 65536 := by
+  rw [bucket_size_exact v l v1 bs v2 h1 h2]
+  have : (n16 bs.length).toNat = bs.length % 65536 := by simp [n16, UInt16.toNat_ofNat']
+  rw [round8_of_aligned _ (by omega), this]
+
+/-- the size a Bucket reports is a multiple of 8 -/
+theorem bucket_len_aligned (v : V) (l : UInt16) (v1 : V) (h : Bucket.lenM v = .ok (l, v1)) : l.toNat % 8 = 0 := by
+  unfold Bucket.lenM at h
+  split at h
+  · obtain ⟨_, _, h'⟩ := bind_ok_inv _ _ _ h
+    cases h'
+    exact round8_aligned _
+  · exact absurd h (by simp)
+
+/-- GENUINE DEFECT (model of group.go): a bucket holding an action whose size is not a multiple of 8 — here the 4-byte
+    header-only action the library uses for COPY_TTL_OUT etc. — reports 24 bytes (and writes Length = 24) but
+    encodes to 20 bytes: the padding Len() accounts for is never written. -/
+theorem bucket_size_counterexample :
+    ∃ v l v1 bs v2, Bucket.lenM v = .ok (l, v1) ∧ Bucket.marshalM v = .ok (bs, v2) ∧ l.toNat = 24 ∧ bs.length = 20 :=
+  ⟨.obj "Bucket" [.num 0, .num 0, .num 0, .num 0, .bytes [], .list [ActionHeader.mk Gen.openflow13.ActionType_CopyTtlOut 4]],
+   24, _, _, _, rfl, rfl, rfl, rfl⟩
+
+/-- GroupMod, reported size (also written to Header.Length) = encoded size mod 2^16 — PARTIAL: for DELETE commands
+    (no buckets on the wire) always; otherwise when every bucket's encoding is a multiple of 8 bytes.
+    The full statement is false because of `bucket_size_counterexample` (see `groupMod_size_counterexample`). -/
+theorem groupMod_size_partial (h cmd t p g : V) (bks : List V) (hal : ∀ b ∈ bks, BucketAligned b) :
+    SizeMod GroupMod.lenM GroupMod.marshalM (.obj "GroupMod" [h, cmd, t, p, g, .list bks]) := by
+  intro l v1 bs v2 h1 h2
+  unfold GroupMod.marshalM at h2
+  obtain ⟨⟨l', v'⟩, hl, h3⟩ := bind_ok_inv _ _ _ h2
+  rw [h1] at hl
+  cases hl
+  unfold GroupMod.lenM at h1
+  split at h1
+  · rename_i hh cmdn tt pp gg bks' heq
+    cases heq
+    split at h1
+    · -- DELETE
+      rename_i hdel
+      cases h1
+      simp only at h3
+      split at h3
+      · rename_i heq2
+        cases heq2
+        obtain ⟨hb, hhb, h4⟩ := bind_ok_inv _ _ _ h3
+        simp only [hdel, if_true, Res.bind_ok] at h4
+        split at h4
+        · exact absurd h4 (by simp)
+        · cases h4
+          have := Header.bytes_length _ _ hhb
+          simp [this]
+      · exact absurd h3 (by simp)
+    · rename_i hdel
+      obtain ⟨⟨ls, bks''⟩, hm, h1'⟩ := bind_ok_inv _ _ _ h1
+      cases h1'
+      simp only at h3
+      split at h3
+      · rename_i heq2
+        cases heq2
+        obtain ⟨hb, hhb, h4⟩ := bind_ok_inv _ _ _ h3
+        simp only [hdel, if_false] at h4
+        obtain ⟨⟨bb, bks3, e⟩, hml, h5⟩ := bind_ok_inv _ _ _ h4
+        simp only at h5
+        split at h5
+        · exact absurd h5 (by simp)
+        · cases h5
+          have key := marshalList_length_after Bucket.lenM Bucket.marshalCopyM _ _ _ _ _ _ _ hm hml
+            (fun x _ => Bucket.marshalCopyM_noErr x)
+            (fun x hx l y b z hlx hy => by
+              unfold Bucket.marshalCopyM at hy
+              obtain ⟨⟨b', z'⟩, hmy, hy'⟩ := bind_ok_inv _ _ _ hy
+              cases hy'
+              exact bucket_size_partial y l y b z' (Bucket.lenM_idem x l y hlx) hmy (hal x hx l y b z' hlx hmy))
+          have := Header.bytes_length _ _ hhb
+          simp only [List.length_append, this, be16_length, be32_length, List.length_cons, List.length_nil]
+          rw [UInt16.toNat_add, key]
+          have h2' : (2:Nat) ^ 16 = 65536 := rfl
+          have h16 : (16 : UInt16).toNat = 16 := rfl
+          rw [h2', h16]; omega
+      · exact absurd h3 (by simp)
+  · exact absurd h1 (by simp)
+
+/-! ### FlowMod, FlowRemoved -/
+
+/-- FlowMod: header (with Length = Len()), the 40 fixed bytes, the complete Match and — except for the two delete
+    commands, where Len() and the encoder both leave them out — the complete instructions.  Reported size = encoded
+    size modulo 2^16 for EVERY FlowMod (the encoding is built with `append`). -/
+theorem flowMod_sizeMod (v : V) : SizeMod FlowMod.lenM FlowMod.marshalM v := by
+  intro l v1 bs v2 h1 h2
+  unfold FlowMod.marshalM at h2
+  obtain ⟨⟨l', v'⟩, hl, h3⟩ := bind_ok_inv _ _ _ h2
+  rw [h1] at hl
+  cases hl
+  unfold FlowMod.lenM at h1
+  split at h1
+  · obtain ⟨⟨ml, m'⟩, hml, h1a⟩ := bind_ok_inv _ _ _ h1
+    have em := Match.lenM_pure _ _ _ hml
+    subst em
+    simp only at h1a
+    split at h1a
+    · -- delete / delete-strict
+      rename_i hdel
+      cases h1a
+      simp only at h3
+      split at h3
+      · rename_i heq2
+        cases heq2
+        obtain ⟨hb, hhb, h4⟩ := bind_ok_inv _ _ _ h3
+        obtain ⟨⟨⟨mb, m''⟩, e0⟩, hmm, h5⟩ := bind_ok_inv _ _ _ h4
+        obtain ⟨hmm', rfl⟩ := catchErr_noErr _ _ _ _ (Match.marshalM_noErr _) hmm
+        simp only [hdel, if_true, Res.bind_ok] at h5
+        split at h5
+        · exact absurd h5 (by simp)
+        · cases h5
+          have hmlen := C06.match_size _ _ _ _ _ hml hmm'
+          have := Header.bytes_length _ _ hhb
+          simp only [List.length_append, this, be16_length, be32_length, be64_length, List.length_cons, List.length_nil,
+            zeros_length, hmlen]
+          rw [UInt16.toNat_add]
+          have h2' : (2:Nat) ^ 16 = 65536 := rfl
+          have h48 : ((8 : UInt16) + 40).toNat = 48 := rfl
+          have := ml.toNat_lt
+          rw [h2', h48]; omega
+      · exact absurd h3 (by simp)
+    · rename_i hdel
+      obtain ⟨⟨ls, is'⟩, hm, h1b⟩ := bind_ok_inv _ _ _ h1a
+      cases h1b
+      simp only at h3
+      split at h3
+      · rename_i heq2
+        cases heq2
+        obtain ⟨hb, hhb, h4⟩ := bind_ok_inv _ _ _ h3
+        obtain ⟨⟨⟨mb, m''⟩, e0⟩, hmm, h5⟩ := bind_ok_inv _ _ _ h4
+        obtain ⟨hmm', rfl⟩ := catchErr_noErr _ _ _ _ (Match.marshalM_noErr _) hmm
+        simp only [hdel, if_false] at h5
+        obtain ⟨⟨ib, is3, e⟩, hmli, h6⟩ := bind_ok_inv _ _ _ h5
+        simp only at h6
+        split at h6
+        · exact absurd h6 (by simp)
+        · cases h6
+          have key := marshalList_length_after Instruction.lenM Instruction.marshalM _ _ _ _ _ _ _ hm hmli
+            (fun x _ => Instruction.marshalM_noErr x)
+            (fun x _ l y b z hlx hy => instruction_sizeMod y l y b z (Instruction.lenM_idem x l y hlx) hy)
+          have hmlen := C06.match_size _ _ _ _ _ hml hmm'
+          have := Header.bytes_length _ _ hhb
+          simp only [List.length_append, this, be16_length, be32_length, be64_length, List.length_cons, List.length_nil,
+            zeros_length, hmlen]
+          rw [UInt16.toNat_add, UInt16.toNat_add, key]
+          have h2' : (2:Nat) ^ 16 = 65536 := rfl
+          have h48 : ((8 : UInt16) + 40).toNat = 48 := rfl
+          have := ml.toNat_lt
+          rw [h2', h48]; omega
+      · exact absurd h3 (by simp)
+  · exact absurd h1 (by simp)
+
+/-- FlowRemoved: allocated from Len(), so exactly the reported size -/
+theorem flowRemoved_size (v : V) : SizeOK FlowRemoved.lenM FlowRemoved.marshalM v := by
+  intro l v1 bs v2 h1 h2
+  unfold FlowRemoved.marshalM at h2
+  obtain ⟨⟨l', v'⟩, hl, h3⟩ := bind_ok_inv _ _ _ h2
+  rw [h1] at hl
+  cases hl
+  simp only at h3
+  split at h3
+  · revert h3; size_fill
+  · exact absurd h3 (by simp)
+
+/-! ### common header, Hello -/
+
+/-- the OpenFlow header: 8 bytes -/
+theorem header_size (v : V) : SizeOK Header.lenM Header.marshalM v := by
+  intro l v1 bs v2 h1 h2
+  obtain ⟨rfl, rfl⟩ := same_ok _ _ _ _ h1
+  unfold Header.marshalM at h2
+  obtain ⟨b, hb, h2⟩ := bind_ok_inv _ _ _ h2
+  obtain ⟨rfl, _⟩ := same_ok _ _ _ _ h2
+  exact Header.bytes_length _ _ hb
+
+/-- HelloElemHeader: 4 bytes -/
+theorem helloElemHeader_size (v : V) : SizeOK HelloElemHeader.lenM HelloElemHeader.marshalM v := by
+  intro l v1 bs v2 h1 h2
+  obtain ⟨rfl, rfl⟩ := same_ok _ _ _ _ h1
+  unfold HelloElemHeader.marshalM at h2
+  obtain ⟨b, hb, h2⟩ := bind_ok_inv _ _ _ h2
+  obtain ⟨rfl, _⟩ := same_ok _ _ _ _ h2
+  exact HelloElemHeader.bytes_length _ _ hb
+
+/-- HelloElemVersionBitmap: 4 + 4 per bitmap -/
+theorem helloElemVersionBitmap_size (v : V) : SizeOK HelloElemVersionBitmap.lenM HelloElemVersionBitmap.marshalM v := by
+  intro l v1 bs v2 h1 h2
+  unfold HelloElemVersionBitmap.lenM at h1
+  obtain ⟨l', hl, h1'⟩ := bind_ok_inv _ _ _ h1
+  obtain ⟨rfl, rfl⟩ := same_ok _ _ _ _ h1'
+  unfold HelloElemVersionBitmap.marshalM at h2
+  split at h2
+  · simp only [hl, Res.bind_ok] at h2
+    revert h2; size_fill
+  · exact absurd h2 (by simp)
+
+/-- the HelloElem interface -/
+theorem helloElem_size (v : V) : SizeOK HelloElem.lenM HelloElem.marshalM v := by
+  intro l v1 bs v2 h1 h2
+  unfold HelloElem.lenM at h1
+  unfold HelloElem.marshalM at h2
+  split at h1 <;> rename_i hk <;> simp only [hk] at h2
+  · exact helloElemVersionBitmap_size v l v1 bs v2 h1 h2
+  · exact helloElemHeader_size v l v1 bs v2 h1 h2
+  · exact absurd h1 (by simp)
+
+/-- Hello: the buffer is allocated from the first Len() call, which is the reported one -/
+theorem hello_size (v : V) : SizeOK Hello.lenM Hello.marshalM v := by
+  intro l v1 bs v2 h1 h2
+  unfold Hello.marshalM at h2
+  obtain ⟨⟨l', v'⟩, hl, h3⟩ := bind_ok_inv _ _ _ h2
+  rw [h1] at hl
+  cases hl
+  obtain ⟨⟨l1, v''⟩, hl1, h4⟩ := bind_ok_inv _ _ _ h3
+  simp only at h4
+  split at h4
+  · revert h4; size_fill
+  · exact absurd h4 (by simp)
+
+/-! ### messages of openflow13.go, port.go -/
+
+/-- PhyPort: 42 + len(HWAddr) + len(Name) bytes reported and allocated -/
+theorem phyPort_size (v : V) : SizeOK PhyPort.lenM PhyPort.marshalM v := by
+  intro l v1 bs v2 h1 h2
+  unfold PhyPort.lenM at h1
+  obtain ⟨l', hl, h1'⟩ := bind_ok_inv _ _ _ h1
+  obtain ⟨rfl, rfl⟩ := same_ok _ _ _ _ h1'
+  unfold PhyPort.marshalM at h2
+  simp only [hl, Res.bind_ok] at h2
+  split at h2
+  · revert h2; size_fill
+  · exact absurd h2 (by simp)
+
+/-- PortMod: 40 bytes -/
+theorem portMod_size (v : V) : SizeOK PortMod.lenM PortMod.marshalM v := by
+  intro l v1 bs v2 h1 h2
+  obtain ⟨rfl, rfl⟩ := same_ok _ _ _ _ h1
+  unfold PortMod.marshalM at h2
+  obtain ⟨⟨l', v'⟩, hl, h3⟩ := bind_ok_inv _ _ _ h2
+  simp only at h3
+  split at h3
+  · obtain ⟨hb, hhb, h4⟩ := bind_ok_inv _ _ _ h3
+    obtain ⟨b, hfb, h5⟩ := bind_ok_inv _ _ _ h4
+    cases h5
+    have e1 := Header.bytes_length _ _ hhb
+    have e2 := fill_length _ _ _ hfb
+    simp only [List.length_append, e1, e2]
+    rfl
+  · exact absurd h3 (by simp)
+
+/-- SwitchConfig (SetConfig / GetConfigReply): 12 bytes -/
+theorem switchConfig_size (v : V) : SizeOK SwitchConfig.lenM SwitchConfig.marshalM v := by
+  intro l v1 bs v2 h1 h2
+  unfold SwitchConfig.marshalM at h2
+  obtain ⟨⟨l', v'⟩, hl, h3⟩ := bind_ok_inv _ _ _ h2
+  rw [h1] at hl
+  cases hl
+  obtain ⟨⟨l1, v''⟩, hl1, h4⟩ := bind_ok_inv _ _ _ h3
+  simp only at h4
+  split at h4
+  · revert h4; size_fill
+  · exact absurd h4 (by simp)
+
+/-- ErrorMsg: 12 + len(Data) -/
+theorem errorMsg_size (v : V) : SizeOK ErrorMsg.lenM ErrorMsg.marshalM v := by
+  intro l v1 bs v2 h1 h2
+  unfold ErrorMsg.marshalM at h2
+  obtain ⟨⟨l', v'⟩, hl, h3⟩ := bind_ok_inv _ _ _ h2
+  rw [h1] at hl
+  cases hl
+  simp only at h3
+  split at h3
+  · revert h3; size_fill
+  · exact absurd h3 (by simp)
+
+/-- VendorError: 16 + len(Data) -/
+theorem vendorError_size (v : V) : SizeOK VendorError.lenM VendorError.marshalM v := by
+  intro l v1 bs v2 h1 h2
+  unfold VendorError.marshalM at h2
+  obtain ⟨⟨l', v'⟩, hl, h3⟩ := bind_ok_inv _ _ _ h2
+  rw [h1] at hl
+  cases hl
+  simp only at h3
+  split at h3
+  · revert h3; size_fill
+  · exact absurd h3 (by simp)
+
+/-- SwitchFeatures: allocated from Len() (which also counts the DPID that is never written: the tail stays zero) -/
+theorem switchFeatures_size (v : V) : SizeOK SwitchFeatures.lenM SwitchFeatures.marshalM v := by
+  intro l v1 bs v2 h1 h2
+  unfold SwitchFeatures.marshalM at h2
+  obtain ⟨⟨l', v'⟩, hl, h3⟩ := bind_ok_inv _ _ _ h2
+  rw [h1] at hl
+  cases hl
+  obtain ⟨⟨l1, v''⟩, hl1, h4⟩ := bind_ok_inv _ _ _ h3
+  simp only at h4
+  split at h4
+  · revert h4; size_fill
+  · exact absurd h4 (by simp)
+
+/-- Ethernet frame (PacketIn.Data), for any encoder of the payload: allocated from Len(), the payload is written
+    into that buffer -/
+theorem ethernet_size (al : V → R (UInt16 × V)) (am : V → R (Bytes × V)) (v : V) :
+    SizeOK (PEthernet.lenW al) (PEthernet.marshalW al am) v := by
+  intro l v1 bs v2 h1 h2
+  unfold PEthernet.marshalW at h2
+  obtain ⟨⟨l', v'⟩, hl, h3⟩ := bind_ok_inv _ _ _ h2
+  rw [h1] at hl
+  cases hl
+  simp only at h3
+  split at h3
+  · split at h3
+    all_goals (
+      obtain ⟨vb, _, h4⟩ := bind_ok_inv _ _ _ h3
+      obtain ⟨buf, hbuf, h5⟩ := bind_ok_inv _ _ _ h4
+      have hbl := fill_length _ _ _ hbuf
+      split at h5
+      · cases h5; exact hbl
+      · obtain ⟨⟨b, dat'⟩, _, h6⟩ := bind_ok_inv _ _ _ h5
+        obtain ⟨out, hout, h7⟩ := bind_ok_inv _ _ _ h6
+        cases h7
+        rw [fillFrom_length _ _ _ _ hout]; exact hbl)
+  · exact absurd h3 (by simp)
+
+/-- PacketIn: header (Length = Len()), 16 fixed bytes, the complete Match, 2 pad bytes, the complete frame (built with
+    `append`; Len() adds in uint16).  The frame is encoded AFTER Len() has run over it, hence the hypothesis that a
+    second Len() of the frame agrees with the first (C13; it holds trivially for a frame without payload). -/
+theorem packetIn_sizeMod (h b t r ti c m pad eth : V) (hidem : LenIdem PEthernet.lenM eth) :
+    SizeMod PacketIn.lenM PacketIn.marshalM (.obj "PacketIn" [h, b, t, r, ti, c, m, pad, eth]) := by
+  intro l v1 bs v2 h1 h2
+  unfold PacketIn.marshalM at h2
+  obtain ⟨⟨l', v'⟩, hl, h3⟩ := bind_ok_inv _ _ _ h2
+  rw [h1] at hl
+  cases hl
+  simp only [PacketIn.lenM] at h1
+  obtain ⟨⟨lm, m'⟩, hlm, h1a⟩ := bind_ok_inv _ _ _ h1
+  obtain ⟨⟨le, eth'⟩, hle, h1b⟩ := bind_ok_inv _ _ _ h1a
+  have em := Match.lenM_pure _ _ _ hlm
+  subst em
+  cases h1b
+  simp only at h3
+  split at h3
+  · rename_i heq
+    cases heq
+    obtain ⟨hb, hhb, h4⟩ := bind_ok_inv _ _ _ h3
+    obtain ⟨⟨mb, m''⟩, hmm, h5⟩ := bind_ok_inv _ _ _ h4
+    obtain ⟨⟨eb, eth''⟩, hem, h6⟩ := bind_ok_inv _ _ _ h5
+    cases h6
+    rw [msgTryM_noErr _ _ (Match.marshalM_noErr _)] at hmm
+    have e1 := Header.bytes_length _ _ hhb
+    have e2 := C06.match_size _ _ _ _ _ hlm hmm
+    have e3 := ethernet_size _ _ _ _ _ _ _ (hidem _ _ hle) hem
+    simp only [List.length_append, e1, e2, e3, be16_length, be32_length, be64_length, makeCopy_length, List.length_cons, List.length_nil]
+    simp only [UInt16.toNat_add]
+    have h2' : (2:Nat) ^ 16 = 65536 := rfl
+    have h8 : (8 : UInt16).toNat = 8 := rfl
+    have h16 : (16 : UInt16).toNat = 16 := rfl
+    have h2 : (2 : UInt16).toNat = 2 := rfl
+    rw [h2', h8, h16, h2]; omega
+  · exact absurd h3 (by simp)
+
+/-- PortStatus: header, 8 bytes, the complete PhyPort -/
+theorem portStatus_sizeMod (v : V) : SizeMod PortStatus.lenM PortStatus.marshalM v := by
+  intro l v1 bs v2 h1 h2
+  unfold PortStatus.marshalM at h2
+  obtain ⟨⟨l', v'⟩, hl, h3⟩ := bind_ok_inv _ _ _ h2
+  rw [h1] at hl
+  cases hl
+  unfold PortStatus.lenM at h1
+  split at h1
+  · obtain ⟨⟨lp, d'⟩, hlp, h1a⟩ := bind_ok_inv _ _ _ h1
+    cases h1a
+    simp only at h3
+    split at h3
+    · rename_i heq
+      cases heq
+      obtain ⟨hb, hhb, h4⟩ := bind_ok_inv _ _ _ h3
+      obtain ⟨⟨db, d''⟩, hdm, h5⟩ := bind_ok_inv _ _ _ h4
+      cases h5
+      have ep := PhyPort.lenM_pure _ _ _ hlp
+      subst ep
+      have e1 := Header.bytes_length _ _ hhb
+      have e2 := phyPort_size _ _ _ _ _ hlp hdm
+      simp only [List.length_append, e1, e2, List.length_cons, List.length_nil, makeCopy_length]
+      simp only [UInt16.toNat_add]
+      have h2' : (2:Nat) ^ 16 = 65536 := rfl
+      have h8 : (8 : UInt16).toNat = 8 := rfl
+      rw [h2', h8] <;> omega
+    · exact absurd h3 (by simp)
+  · exact absurd h1 (by simp)
+
+/-! ### multipart bodies -/
+
+/-- DescStats: 1056 bytes -/
+theorem descStats_size (v : V) : SizeOK DescStats.lenM DescStats.marshalM v := by
+  intro l v1 bs v2 h1 h2
+  obtain ⟨rfl, rfl⟩ := same_ok _ _ _ _ h1
+  unfold DescStats.marshalM at h2
+  split at h2
+  · revert h2; size_fill
+  · exact absurd h2 (by simp)
+
+/-- FlowStatsRequest / AggregateStatsRequest (shared code): 32 fixed bytes and the complete Match -/
+theorem statsReq_sizeMod (k : String) (v : V) : SizeMod (StatsReq.lenM k) (StatsReq.marshalM k) v := by
+  intro l v1 bs v2 h1 h2
+  unfold StatsReq.marshalM at h2
+  split at h2
+  · split at h2
+    · exact absurd h2 (by simp)
+    · rename_i hk
+      have hk' : _ = k := Decidable.of_not_not hk
+      subst hk'
+      simp only [StatsReq.lenM, ne_eq, not_true_eq_false, if_false] at h1
+      obtain ⟨⟨lm, m'⟩, hlm, h1a⟩ := bind_ok_inv _ _ _ h1
+      cases h1a
+      obtain ⟨fb, hfb, h3⟩ := bind_ok_inv _ _ _ h2
+      obtain ⟨⟨mb, m''⟩, hmm, h4⟩ := bind_ok_inv _ _ _ h3
+      cases h4
+      have e1 := fill_length _ _ _ hfb
+      have e2 := C06.match_size _ _ _ _ _ hlm hmm
+      simp only [List.length_append, e1, e2, UInt16.toNat_add]
+      have h2' : (2:Nat) ^ 16 = 65536 := rfl
+      have h32 : (32 : UInt16).toNat = 32 := rfl
+      have := lm.toNat_lt
+      rw [h2', h32]; omega
+  · exact absurd h2 (by simp)
+
+theorem flowStatsRequest_sizeMod (v : V) : SizeMod FlowStatsRequest.lenM FlowStatsRequest.marshalM v :=
+  statsReq_sizeMod _ v
+theorem aggregateStatsRequest_sizeMod (v : V) : SizeMod AggregateStatsRequest.lenM AggregateStatsRequest.marshalM v :=
+  statsReq_sizeMod _ v
+
+/-- AggregateStats: 24 bytes -/
+theorem aggregateStats_size (v : V) : SizeOK AggregateStats.lenM AggregateStats.marshalM v := by
+  intro l v1 bs v2 h1 h2
+  obtain ⟨rfl, rfl⟩ := same_ok _ _ _ _ h1
+  unfold AggregateStats.marshalM at h2
+  split at h2
+  · revert h2; size_fill
+  · exact absurd h2 (by simp)
+
+/-- TableStats: 64 bytes -/
+theorem tableStats_size (v : V) : SizeOK TableStats.lenM TableStats.marshalM v := by
+  intro l v1 bs v2 h1 h2
+  obtain ⟨rfl, rfl⟩ := same_ok _ _ _ _ h1
+  unfold TableStats.marshalM at h2
+  split at h2
+  · revert h2; size_fill
+  · exact absurd h2 (by simp)
+
+/-- PortStatsRequest: 8 bytes -/
+theorem portStatsRequest_size (v : V) : SizeOK PortStatsRequest.lenM PortStatsRequest.marshalM v := by
+  intro l v1 bs v2 h1 h2
+  obtain ⟨rfl, rfl⟩ := same_ok _ _ _ _ h1
+  unfold PortStatsRequest.marshalM at h2
+  split at h2
+  · revert h2; size_fill
+  · exact absurd h2 (by simp)
+
+/-- PortStats: 104 bytes -/
+theorem portStats_size (v : V) : SizeOK PortStats.lenM PortStats.marshalM v := by
+  intro l v1 bs v2 h1 h2
+  obtain ⟨rfl, rfl⟩ := same_ok _ _ _ _ h1
+  unfold PortStats.marshalM at h2
+  split at h2
+  · split at h2
+    · exact absurd h2 (by simp)
+    · revert h2; size_fill
+  · exact absurd h2 (by simp)
+
+/-- QueueStatsRequest: 8 bytes -/
+theorem queueStatsRequest_size (v : V) : SizeOK QueueStatsRequest.lenM QueueStatsRequest.marshalM v := by
+  intro l v1 bs v2 h1 h2
+  obtain ⟨rfl, rfl⟩ := same_ok _ _ _ _ h1
+  unfold QueueStatsRequest.marshalM at h2
+  split at h2
+  · revert h2; size_fill
+  · exact absurd h2 (by simp)
+
+/-- QueueStats: 32 bytes -/
+theorem queueStats_size (v : V) : SizeOK QueueStats.lenM QueueStats.marshalM v := by
+  intro l v1 bs v2 h1 h2
+  obtain ⟨rfl, rfl⟩ := same_ok _ _ _ _ h1
+  unfold QueueStats.marshalM at h2
+  split at h2
+  · revert h2; size_fill
+  · exact absurd h2 (by simp)
+
+/-! ### nxt_message.go, bundles.go -/
+
+/-- ControllerID: 8 bytes -/
+theorem controllerID_size (v : V) : SizeOK ControllerID.lenM ControllerID.marshalM v := by
+  intro l v1 bs v2 h1 h2
+  obtain ⟨rfl, rfl⟩ := same_ok _ _ _ _ h1
+  unfold ControllerID.marshalM at h2
+  split at h2
+  · obtain ⟨rfl, _⟩ := same_ok _ _ _ _ h2
+    simp
+  · exact absurd h2 (by simp)
+
+/-- TLVTableMap: 8 bytes -/
+theorem tlvTableMap_size (v : V) : SizeOK TLVTableMap.lenM TLVTableMap.marshalM v := by
+  intro l v1 bs v2 h1 h2
+  obtain ⟨rfl, rfl⟩ := same_ok _ _ _ _ h1
+  unfold TLVTableMap.marshalM at h2
+  split at h2
+  · revert h2; size_fill
+  · exact absurd h2 (by simp)
+
+/-- TLVTableMod: 8 + 8 per map, allocated from Len() -/
+theorem tlvTableMod_size (v : V) : SizeOK TLVTableMod.lenM TLVTableMod.marshalM v := by
+  intro l v1 bs v2 h1 h2
+  unfold TLVTableMod.marshalM at h2
+  obtain ⟨⟨l', v'⟩, hl, h3⟩ := bind_ok_inv _ _ _ h2
+  rw [h1] at hl
+  cases hl
+  simp only at h3
+  split at h3
+  · revert h3; size_fill
+  · exact absurd h3 (by simp)
+
+/-- TLVTableReply: 16 + 8 per map, allocated from Len() -/
+theorem tlvTableReply_size (v : V) : SizeOK TLVTableReply.lenM TLVTableReply.marshalM v := by
+  intro l v1 bs v2 h1 h2
+  unfold TLVTableReply.marshalM at h2
+  obtain ⟨⟨l', v'⟩, hl, h3⟩ := bind_ok_inv _ _ _ h2
+  rw [h1] at hl
+  cases hl
+  simp only at h3
+  split at h3
+  · revert h3; size_fill
+  · exact absurd h3 (by simp)
+
+/-- BundleControl: 8 bytes -/
+theorem bundleControl_size (v : V) : SizeOK BundleControl.lenM BundleControl.marshalM v := by
+  intro l v1 bs v2 h1 h2
+  obtain ⟨rfl, rfl⟩ := same_ok _ _ _ _ h1
+  unfold BundleControl.marshalM at h2
+  split at h2
+  · revert h2; size_fill
+  · exact absurd h2 (by simp)
+
+/-- BundlePropertyExperimenter: 12 + len(data) rounded up to 8, zero padded -/
+theorem bundlePropertyExperimenter_size (v : V) :
+    SizeOK BundlePropertyExperimenter.lenM BundlePropertyExperimenter.marshalM v := by
+  intro l v1 bs v2 h1 h2
+  unfold BundlePropertyExperimenter.lenM at h1
+  obtain ⟨l', hl, h1'⟩ := bind_ok_inv _ _ _ h1
+  obtain ⟨rfl, rfl⟩ := same_ok _ _ _ _ h1'
+  unfold BundlePropertyExperimenter.marshalM at h2
+  split at h2
+  · simp only [hl, Res.bind_ok] at h2
+    revert h2; size_fill
+  · exact absurd h2 (by simp)
+
+/-! ### containers of arbitrary messages (parameterised by the functions used for the children) -/
+
+/-- PacketOut: allocated from the first Len() call, which is the reported one — for any child functions -/
+theorem packetOut_size (cl : MsgLenF) (cm : MsgMarF) (v : V) :
+    SizeOK (PacketOut.lenWith cl) (PacketOut.marshalWith cl cm) v := by
+  intro l v1 bs v2 h1 h2
+  unfold PacketOut.marshalWith at h2
+  obtain ⟨⟨l', v'⟩, hl, h3⟩ := bind_ok_inv _ _ _ h2
+  rw [h1] at hl
+  cases hl
+  obtain ⟨⟨l1, v''⟩, hl1, h4⟩ := bind_ok_inv _ _ _ h3
+  simp only at h4
+  split at h4
+  · revert h4; size_fill
+  · exact absurd h4 (by simp)
+
+/-- BundleAdd: allocated from Len() — for any child functions -/
+theorem bundleAdd_size (cl : MsgLenF) (cm : MsgMarF) (v : V) :
+    SizeOK (BundleAdd.lenWith cl) (BundleAdd.marshalWith cl cm) v := by
+  intro l v1 bs v2 h1 h2
+  unfold BundleAdd.marshalWith at h2
+  obtain ⟨⟨l', v'⟩, hl, h3⟩ := bind_ok_inv _ _ _ h2
+  rw [h1] at hl
+  cases hl
+  simp only at h3
+  split at h3
+  · revert h3; size_fill
+  · exact absurd h3 (by simp)
+
+/-- FlowStats: 48 fixed bytes, the complete Match, the complete instructions, in order -/
+theorem flowStats_sizeMod (v : V) : SizeMod FlowStats.lenM FlowStats.marshalM v := by
+  intro l v1 bs v2 h1 h2
+  unfold FlowStats.marshalM at h2
+  split at h2
+  · rename_i ln t p ds dn pr it ht fl p2 c pc bc mt is
+    simp only [FlowStats.lenM] at h1
+    obtain ⟨⟨lm, mt'⟩, hlm, h1a⟩ := bind_ok_inv _ _ _ h1
+    obtain ⟨⟨ls, is'⟩, hls, h1b⟩ := bind_ok_inv _ _ _ h1a
+    cases h1b
+    obtain ⟨fb, hfb, h3⟩ := bind_ok_inv _ _ _ h2
+    have e1 := fill_length _ _ _ hfb
+    simp only at h3
+    split at h3
+    · rename_i hrev
+      have his : is = [] := by simpa using hrev
+      subst his
+      simp [mapM2] at hls
+      obtain ⟨rfl, rfl⟩ := hls
+      obtain ⟨⟨mb, mt''⟩, hmm, h4⟩ := bind_ok_inv _ _ _ h3
+      cases h4
+      have e2 := C06.match_size _ _ _ _ _ hlm hmm
+      simp only [List.length_append, e1, e2, UInt16.toNat_add, sum16_nil]
+      have h2' : (2:Nat) ^ 16 = 65536 := rfl
+      have h48 : (48 : UInt16).toNat = 48 := rfl
+      have h0 : (0 : UInt16).toNat = 0 := rfl
+      have := lm.toNat_lt
+      rw [h2', h48, h0]; omega
+    · rename_i last revInit hrev
+      have his := reverse_eq_cons _ _ _ hrev
+      obtain ⟨⟨mb, mt''⟩, hmm, h4⟩ := bind_ok_inv _ _ _ h3
+      obtain ⟨⟨ibs, init⟩, hinit, h5⟩ := bind_ok_inv _ _ _ h4
+      obtain ⟨⟨lb, last'⟩, hlast, h6⟩ := bind_ok_inv _ _ _ h5
+      cases h6
+      rw [msgTryM_noErr _ _ (Match.marshalM_noErr _)] at hmm
+      rw [msgTryM_eq _ Instruction.marshalM_noErr] at hinit
+      have hall := mapM2_snoc_of_ok _ _ _ _ _ _ _ hinit hlast
+      rw [← his] at hall
+      have key := mapM2_flatten_same Instruction.lenM Instruction.marshalM _ _ _ _ _ hls hall
+        (fun x _ => instruction_sizeMod x)
+      have e2 := C06.match_size _ _ _ _ _ hlm hmm
+      simp only [List.flatten_append, List.flatten_cons, List.flatten_nil, List.append_nil, List.length_append] at key
+      simp only [List.length_append, e1, e2, UInt16.toNat_add, key]
+      have h2' : (2:Nat) ^ 16 = 65536 := rfl
+      have h48 : (48 : UInt16).toNat = 48 := rfl
+      have := lm.toNat_lt
+      rw [h2', h48]; omega
+  · exact absurd h2 (by simp)
+
+/-- VendorHeader (experimenter message): the buffer is allocated from the SECOND Len() call while the reported size
+    (and Header.Length) is the first one.  Equal whenever the payload's Len() is repeatable (C13) and leaves a
+    non-nil payload — for any child functions. -/
+theorem vendorHeader_size (cl : MsgLenF) (cm : MsgMarF) (h vn t d : V)
+    (hidem : LenIdem cl d) (hnn : ∀ l d', cl d = .ok (l, d') → d' ≠ .nil) :
+    SizeOK (VendorHeader.lenWith cl) (VendorHeader.marshalWith cl cm) (.obj "VendorHeader" [h, vn, t, d]) := by
+  intro l v1 bs v2 h1 h2
+  unfold VendorHeader.marshalWith at h2
+  obtain ⟨⟨l', v'⟩, hl, h3⟩ := bind_ok_inv _ _ _ h2
+  rw [h1] at hl
+  cases hl
+  obtain ⟨⟨l2, v''⟩, hl2, h4⟩ := bind_ok_inv _ _ _ h3
+  have hll : l2 = l := by
+    unfold VendorHeader.lenWith at h1
+    split at h1
+    · cases h1
+      simp only [VendorHeader.lenWith] at hl2
+      cases hl2; rfl
+    · rename_i heq
+      cases heq
+      obtain ⟨⟨lc, d'⟩, hc, h1a⟩ := bind_ok_inv _ _ _ h1
+      cases h1a
+      have hc2 := hidem _ _ hc
+      have hd' := hnn _ _ hc
+      unfold VendorHeader.lenWith at hl2
+      split at hl2
+      · rename_i heq2
+        simp only [V.obj.injEq, List.cons.injEq, true_and, and_true] at heq2
+        exact absurd heq2.2.2.2 hd'
+      · rename_i heq2
+        cases heq2
+        rw [hc2] at hl2
+        cases hl2; rfl
+      · exact absurd hl2 (by simp)
+    · exact absurd h1 (by simp)
+  subst hll
+  simp only at h4
+  split at h4
+  · split at h4
+    · revert h4; size_fill
+    · revert h4; size_fill
+  · exact absurd h4 (by simp)
+
+/-- MultipartRequest: header, 8 bytes, the complete body (encoded after Len() ran over it) -/
+theorem multipartRequest_sizeMod (cl : MsgLenF) (cm : MsgMarF) (h t f p b : V)
+    (hc : ∀ l b' bb b'', cl b = .ok (l, b') → cm b' = .ok (bb, b'') → l.toNat = bb.length % 65536) :
+    SizeMod (MultipartRequest.lenWith cl) (MultipartRequest.marshalWith cl cm) (.obj "MultipartRequest" [h, t, f, p, b]) := by
+  intro l v1 bs v2 h1 h2
+  unfold MultipartRequest.marshalWith at h2
+  obtain ⟨⟨l', v'⟩, hl, h3⟩ := bind_ok_inv _ _ _ h2
+  rw [h1] at hl
+  cases hl
+  simp only [MultipartRequest.lenWith] at h1
+  obtain ⟨⟨lb, b'⟩, hlb, h1a⟩ := bind_ok_inv _ _ _ h1
+  cases h1a
+  simp only at h3
+  split at h3
+  · rename_i heq
+    cases heq
+    obtain ⟨hb, hhb, h4⟩ := bind_ok_inv _ _ _ h3
+    obtain ⟨⟨bb, b''⟩, hbm, h5⟩ := bind_ok_inv _ _ _ h4
+    cases h5
+    have e1 := Header.bytes_length _ _ hhb
+    have e2 := hc _ _ _ _ hlb hbm
+    simp only [List.length_append, e1, be16_length, zeros_length, UInt16.toNat_add, e2]
+    have h2' : (2:Nat) ^ 16 = 65536 := rfl
+    have h8 : (8 : UInt16).toNat = 8 := rfl
+    rw [h2', h8]; omega
+  · exact absurd h3 (by simp)
+
+/-- MultipartReply: header, 8 bytes, the complete records in order (each encoded after Len() ran over it) -/
+theorem multipartReply_sizeMod (cl : MsgLenF) (cm : MsgMarF) (h t f p : V) (recs : List V)
+    (hne : ∀ y, NoErr (cm y))
+    (hc : ∀ b ∈ recs, ∀ l b' bb b'', cl b = .ok (l, b') → cm b' = .ok (bb, b'') → l.toNat = bb.length % 65536) :
+    SizeMod (MultipartReply.lenWith cl) (MultipartReply.marshalWith cl cm) (.obj "MultipartReply" [h, t, f, p, .list recs]) := by
+  intro l v1 bs v2 h1 h2
+  unfold MultipartReply.marshalWith at h2
+  obtain ⟨⟨l', v'⟩, hl, h3⟩ := bind_ok_inv _ _ _ h2
+  rw [h1] at hl
+  cases hl
+  simp only [MultipartReply.lenWith] at h1
+  obtain ⟨⟨ls, recs'⟩, hls, h1a⟩ := bind_ok_inv _ _ _ h1
+  cases h1a
+  simp only at h3
+  split at h3
+  · rename_i heq
+    cases heq
+    obtain ⟨hb, hhb, h4⟩ := bind_ok_inv _ _ _ h3
+    have e1 := Header.bytes_length _ _ hhb
+    split at h4
+    · rename_i hrev
+      have his : recs' = [] := by simpa using hrev
+      subst his
+      cases h4
+      have hl0 := (mapM2_length _ _ _ _ hls).1
+      have hrl := (mapM2_length _ _ _ _ hls).2
+      have : ls = [] := by
+        cases ls with
+        | nil => rfl
+        | cons a as => simp at hl0; simp [← hl0] at hrl
+      subst this
+      simp only [List.length_append, e1, be16_length, zeros_length, UInt16.toNat_add, sum16_nil]
+      rfl
+    · rename_i last revInit hrev
+      have his := reverse_eq_cons _ _ _ hrev
+      obtain ⟨⟨ibs, init⟩, hinit, h5⟩ := bind_ok_inv _ _ _ h4
+      obtain ⟨⟨lb, last'⟩, hlast, h6⟩ := bind_ok_inv _ _ _ h5
+      cases h6
+      rw [msgTryM_eq _ hne] at hinit
+      have hall := mapM2_snoc_of_ok _ _ _ _ _ _ _ hinit hlast
+      rw [← his] at hall
+      have key := mapM2_flatten_after cl cm _ _ _ _ _ hls hall hc
+      simp only [List.flatten_append, List.flatten_cons, List.flatten_nil, List.append_nil, List.length_append] at key
+      simp only [List.length_append, e1, be16_length, zeros_length, UInt16.toNat_add, key]
+      have h2' : (2:Nat) ^ 16 = 65536 := rfl
+      have h8 : (8 : UInt16).toNat = 8 := rfl
+      rw [h2', h8]; omega
+  · exact absurd h3 (by simp)
+
+
+/-! ### the container kinds with the knot tied (children through `anyLenM` / `anyMarshalM`) -/
+
+theorem packetOut_size' (v : V) : SizeOK PacketOut.lenM PacketOut.marshalM v := packetOut_size _ _ v
+theorem bundleAdd_size' (v : V) : SizeOK BundleAdd.lenM BundleAdd.marshalM v := bundleAdd_size _ _ v
+theorem vendorHeader_size' (h vn t d : V) (hidem : LenIdem anyLenM d) (hnn : ∀ l d', anyLenM d = .ok (l, d') → d' ≠ .nil) :
+    SizeOK VendorHeader.lenM VendorHeader.marshalM (.obj "VendorHeader" [h, vn, t, d]) :=
+  vendorHeader_size _ _ h vn t d hidem hnn
+/-- an experimenter message without payload (NewNXTVendorHeader, TLV table request): 16 bytes -/
+theorem vendorHeader_size_nil (h vn t : V) :
+    SizeOK VendorHeader.lenM VendorHeader.marshalM (.obj "VendorHeader" [h, vn, t, .nil]) := by
+  intro l v1 bs v2 h1 h2
+  unfold VendorHeader.marshalM VendorHeader.marshalWith at h2
+  obtain ⟨⟨l', v'⟩, hl, h3⟩ := bind_ok_inv _ _ _ h2
+  obtain ⟨⟨l2, v''⟩, hl2, h4⟩ := bind_ok_inv _ _ _ h3
+  simp only [VendorHeader.lenM, VendorHeader.lenWith] at h1
+  cases h1
+  simp only [VendorHeader.lenWith] at hl
+  cases hl
+  simp only [VendorHeader.lenWith] at hl2
+  cases hl2
+  simp only at h4
+  split at h4
+  · split at h4
+    · revert h4; size_fill
+    · revert h4; size_fill
+  · exact absurd h4 (by simp)
 
 end OFV.Props.C06b
